@@ -22,6 +22,7 @@ import (
 	"reflect"
 	"runtime"
 	"sort"
+	"strconv"
 	"strings"
 	"sync"
 	"sync/atomic"
@@ -40,7 +41,15 @@ type c8Pat struct {
 	Pat    pattern.Pattern
 	Src    string // "harvest:<file:line>" or "gen"
 	Checks []string
-	entry  map[reflect.Type]bool
+	// rootList: the root can match as a List. BlockStmt and FieldList have no name in the pattern
+	// language; (List …) stands for them. A brute-force match on one of them is asserted only for such
+	// patterns: for any other root it is either the match on the only element (match.go: a single node
+	// matches a list of one element), already compared on that element, or a catch-all root (_, Not,
+	// unbound binding) applied to a node kind that cannot be named.
+	rootList bool
+	// outside the quantifier of the property as instantiated here: disagreements are listed as
+	// unasserted, never as violations
+	unassertOnly string
 }
 
 func c8Parse(text string) (p pattern.Pattern, err error) {
@@ -55,15 +64,22 @@ func c8Parse(text string) (p pattern.Pattern, err error) {
 	return p, err
 }
 
+func (p *c8Pat) hasEntry(n ast.Node) bool {
+	for _, e := range p.Pat.EntryNodes {
+		if reflect.TypeOf(e) == reflect.TypeOf(n) {
+			return true
+		}
+	}
+	return false
+}
+
 func c8NewPat(text, src string) (*c8Pat, error) {
 	p, err := c8Parse(text)
 	if err != nil {
 		return nil, err
 	}
-	cp := &c8Pat{Text: text, Pat: p, Src: src, entry: map[reflect.Type]bool{}}
-	for _, n := range p.EntryNodes {
-		cp.entry[reflect.TypeOf(n)] = true
-	}
+	cp := &c8Pat{Text: text, Pat: p, Src: src}
+	cp.rootList = c8RootCanBeList(p.Root)
 	return cp, nil
 }
 
@@ -102,7 +118,8 @@ func c8RenderValue(fset *token.FileSet, v any) string {
 		if reflect.ValueOf(v).IsNil() {
 			return fmt.Sprintf("nil:%T", v)
 		}
-		return c8NodeKey(fset, v)
+		// kind@pos+len with the raw token.Pos: unique within the file set, cheap to produce
+		return strings.TrimPrefix(reflect.TypeOf(v).String(), "*ast.") + "@" + strconv.Itoa(int(v.Pos())) + "+" + strconv.Itoa(int(v.End()-v.Pos()))
 	}
 	rv := reflect.ValueOf(v)
 	if rv.Kind() == reflect.Slice {
@@ -144,7 +161,8 @@ type c8Outcome struct {
 	leftN      int      // distinct results of code.Matches
 	leftDup    int      // results yielded more than once
 	missing    []string // in RIGHT, not in LEFT: the property's violation
-	missKinds  []string // node kind of each missing element
+	missWhat   string   // description of the first missing element: node kind (+ what a call's callee is)
+	listOnly   int      // in RIGHT only, on a BlockStmt/FieldList, for a pattern whose root cannot be a List: unasserted
 	extra      []string // in LEFT, not in RIGHT
 	illFormed  bool     // the pattern binds a name twice (doc.go: an error); pair not compared
 	leftPanic  string
@@ -152,63 +170,107 @@ type c8Outcome struct {
 	otherPanic int    // panics on node kinds never offered: "no match"
 }
 
+// c8Key identifies one result: the node (both sides work on the same syntax trees, so identity of the
+// node is pointer identity) and the structural rendering of the bindings ("" for none).
+type c8Key struct {
+	n  ast.Node
+	st string
+}
+
+func (k c8Key) text(fset *token.FileSet) string {
+	st := k.st
+	if st == "" {
+		st = "{}"
+	}
+	return c8NodeKey(fset, k.n) + " " + st
+}
+
+func c8StateKey(fset *token.FileSet, st pattern.State) string {
+	if len(st) == 0 {
+		return ""
+	}
+	return c8RenderState(fset, st)
+}
+
+// c8Unwrap identifies a transparent wrapper with its child.
+func c8Unwrap(n ast.Node) ast.Node {
+	for {
+		switch w := n.(type) {
+		case *ast.ParenExpr:
+			n = w.X
+		case *ast.ExprStmt:
+			n = w.X
+		case *ast.DeclStmt:
+			n = w.Decl
+		case *ast.LabeledStmt:
+			n = w.Stmt
+		default:
+			return n
+		}
+	}
+}
+
+// c8BruteFrom tries the pattern on nodes[i:], a fresh Matcher per node, until the end or a panic of
+// Match; it returns the index to continue from and the panic message, if any, of nodes[next-1].
+func c8BruteFrom(p *c8Pat, pass *analysis.Pass, nodes []ast.Node, i int, out *[]c8Key) (next int, panicMsg string) {
+	defer func() {
+		if e := recover(); e != nil {
+			panicMsg = fmt.Sprint(e)
+			if panicMsg == "" {
+				panicMsg = "panic"
+			}
+			next = i + 1
+		}
+	}()
+	for ; i < len(nodes); i++ {
+		m := &pattern.Matcher{TypesInfo: pass.TypesInfo}
+		if m.Match(p.Pat, nodes[i]) {
+			*out = append(*out, c8Key{nodes[i], c8StateKey(pass.Fset, m.State)})
+		}
+	}
+	return len(nodes), ""
+}
+
 func c8Compare(p *c8Pat, k *c8Pkg) c8Outcome {
 	var o c8Outcome
 	pass := k.Pass
-	right := map[string]bool{}
-	var rightOrder, rightKinds []string
-	for _, n := range k.Nodes {
-		m := &pattern.Matcher{TypesInfo: pass.TypesInfo}
-		ok := false
-		if msg := vx.Catch(func() { ok = m.Match(p.Pat, n) }); msg != "" {
+	var right []c8Key
+	for i := 0; i < len(k.Nodes); {
+		next, msg := c8BruteFrom(p, pass, k.Nodes, i, &right)
+		if msg != "" {
+			n := k.Nodes[next-1]
 			switch {
 			case strings.Contains(msg, "binding already created"):
 				o.illFormed = true
-			case p.entry[reflect.TypeOf(n)]:
+			case p.hasEntry(n):
 				if o.rightPanic == "" {
 					o.rightPanic = c8NodeKey(pass.Fset, n) + ": " + msg
 				}
 			default:
 				o.otherPanic++
 			}
-			continue
 		}
-		if ok {
-			key := c8NodeKey(pass.Fset, n) + " " + c8RenderState(pass.Fset, m.State)
-			if !right[key] {
-				right[key] = true
-				rightOrder = append(rightOrder, key)
-				rightKinds = append(rightKinds, strings.TrimPrefix(reflect.TypeOf(n).String(), "*ast."))
-			}
-		}
+		i = next
 	}
 	o.rightN = len(right)
-	left := map[string]int{}
+	var leftList []c8Key
 	o.leftPanic = vx.Catch(func() {
 		for n, m := range code.Matches(pass, p.Pat) {
-			for {
-				// identify a transparent wrapper with its child (never produced today; kept symmetric)
-				switch w := n.(type) {
-				case *ast.ParenExpr:
-					n = w.X
-					continue
-				case *ast.ExprStmt:
-					n = w.X
-					continue
-				case *ast.DeclStmt:
-					n = w.Decl
-					continue
-				case *ast.LabeledStmt:
-					n = w.Stmt
-					continue
-				}
-				break
-			}
-			left[c8NodeKey(pass.Fset, n)+" "+c8RenderState(pass.Fset, m.State)]++
+			leftList = append(leftList, c8Key{c8Unwrap(n), c8StateKey(pass.Fset, m.State)})
 		}
 	})
 	if strings.Contains(o.leftPanic, "binding already created") {
 		o.illFormed = true
+	}
+	if o.illFormed || o.leftPanic != "" {
+		return o
+	}
+	if len(right) == 0 && len(leftList) == 0 {
+		return o
+	}
+	left := make(map[c8Key]int, len(leftList))
+	for _, key := range leftList {
+		left[key]++
 	}
 	o.leftN = len(left)
 	for _, c := range left {
@@ -216,22 +278,83 @@ func c8Compare(p *c8Pat, k *c8Pkg) c8Outcome {
 			o.leftDup++
 		}
 	}
-	if o.illFormed || o.leftPanic != "" {
-		return o
-	}
-	for i, key := range rightOrder {
+	for _, key := range right {
 		if left[key] == 0 {
-			o.missing = append(o.missing, key)
-			o.missKinds = append(o.missKinds, rightKinds[i])
+			switch key.n.(type) {
+			case *ast.BlockStmt, *ast.FieldList:
+				if !p.rootList {
+					o.listOnly++
+					continue
+				}
+			}
+			if len(o.missing) == 0 {
+				o.missWhat = c8What(pass, key.n)
+			}
+			o.missing = append(o.missing, key.text(pass.Fset))
 		}
 	}
-	for key := range left {
-		if !right[key] {
-			o.extra = append(o.extra, key)
+	if len(left) > 0 {
+		rset := make(map[c8Key]bool, len(right))
+		for _, key := range right {
+			rset[key] = true
 		}
+		for key := range left {
+			if !rset[key] {
+				o.extra = append(o.extra, key.text(pass.Fset))
+			}
+		}
+		sort.Strings(o.extra)
 	}
-	sort.Strings(o.extra)
 	return o
+}
+
+// c8What describes a dropped node for grouping: its kind and, for a call, what the callee denotes.
+func c8What(pass *analysis.Pass, n ast.Node) string {
+	kind := strings.TrimPrefix(reflect.TypeOf(n).String(), "*ast.")
+	call, ok := n.(*ast.CallExpr)
+	if !ok {
+		return kind
+	}
+	fun := ast.Unparen(call.Fun)
+	switch f := fun.(type) {
+	case *ast.IndexExpr:
+		fun = ast.Unparen(f.X)
+	case *ast.IndexListExpr:
+		fun = ast.Unparen(f.X)
+	}
+	var id *ast.Ident
+	switch f := fun.(type) {
+	case *ast.Ident:
+		id = f
+	case *ast.SelectorExpr:
+		id = f.Sel
+	}
+	if id == nil {
+		return kind
+	}
+	obj := pass.TypesInfo.ObjectOf(id)
+	if obj == nil {
+		return kind
+	}
+	return kind + ":" + strings.TrimPrefix(reflect.TypeOf(obj).String(), "*types.")
+}
+
+// c8RootCanBeList reports whether the root of the pattern can match as a List (List itself, through a
+// Binding, or an alternative of an Or).
+func c8RootCanBeList(n pattern.Node) bool {
+	switch n := n.(type) {
+	case pattern.List:
+		return true
+	case pattern.Binding:
+		return n.Node != nil && c8RootCanBeList(n.Node)
+	case pattern.Or:
+		for _, a := range n.Nodes {
+			if c8RootCanBeList(a) {
+				return true
+			}
+		}
+	}
+	return false
 }
 
 // c8Stage names the pre-filter that withheld the nodes (used to group reports; not part of the oracle).
@@ -327,13 +450,15 @@ func c8DropKey(pat, pkg string) string { return "drop|" + c8KeyText(pat) + "|" +
 type c8Stats struct {
 	pairs, nodes, nontrivial, leftMatches, rightMatches int64
 	illFormed, otherPanics, dupLeft, extraPairs         int64
+	listOnly                                            int64
 	stageReject, stageCalls, stageEntry                 int64
 }
 
 func TestVerifC08(t *testing.T) {
 	res := vx.New("(pattern, package) pairs: patterns = every pattern.MustParse literal of the checks (harvested from the current source) and every term of a sorted pattern grammar up to a depth/weight bound with symbol names of a generated library and builtins; packages = one generated client package per call/reference form, hand-written std forms, and the checks' own testdata packages. For each pair the (node, bindings) set of the real code.Matches is compared with brute-force pattern.Match on every nameable node. Non-trivial: the brute force finds at least one match")
 	defer res.Write()
-	res.SetBudget(vx.Budget(75*time.Second, 15*time.Minute))
+	t0 := time.Now()
+	res.SetBudget(vx.Budget(80*time.Second, 15*time.Minute))
 
 	if _, raw, ok := vx.Replay(); ok {
 		c8Replay(t, res, raw)
@@ -376,30 +501,20 @@ func TestVerifC08(t *testing.T) {
 
 	lib := c8Mod + "/lib."
 	symsQ := []string{lib + "F", "(" + lib + "T).VM", "(*" + lib + "T).PM", "(" + lib + "I).IM", lib + "N", lib + "T", lib + "V", lib + "C", lib + "G", "len", "append"}
-	symsT := append(append([]string{}, symsQ...), lib+"FV", lib+"G2", "(*"+lib+"Box[int]).Get", "("+lib+"T).IM", lib+"I")
+	symsT := append(append([]string{}, symsQ...), lib+"FV", lib+"G2", "("+lib+"T).IM", lib+"I")
 	orQ := []string{lib + "F", "(" + lib + "T).VM", lib + "N", "len"}
 	orT := append(append([]string{}, orQ...), lib+"G", lib+"V")
 	depth := 3
-	maxW := vx.Pick(6, 7)
+	maxW := vx.Pick(4, 5)
 	gtexts := c8Generated(vx.Pick(symsQ, symsT), vx.Pick(orQ, orT), depth, maxW)
-	var gpats []*c8Pat
-	var rejected int64
+	var gpats []string
 	for _, s := range gtexts {
-		if byText[s] != nil {
-			continue
+		if byText[s] == nil {
+			gpats = append(gpats, s)
 		}
-		p, err := c8NewPat(s, "gen")
-		if err != nil {
-			rejected++
-			if rejected <= 3 {
-				res.Note("generated term refused by the parser (not a pattern, skipped): %s: %v", s, err)
-			}
-			continue
-		}
-		gpats = append(gpats, p)
 	}
+	var rejected int64
 	res.Count("patterns_generated", int64(len(gpats)))
-	res.Count("patterns_generated_refused_by_parser", rejected)
 	res.Bound = fmt.Sprintf("generated terms: depth<=%d weight<=%d, %d symbol names; %d harvested patterns", depth, maxW, len(vx.Pick(symsQ, symsT)), len(hpats))
 
 	// ---- packages
@@ -454,6 +569,7 @@ func TestVerifC08(t *testing.T) {
 		}(d)
 	}
 	wg.Wait()
+	t.Logf("loaded: world %d, testdata %d packages (%d dirs), %.1fs", len(world), len(td), len(dirs), time.Since(t0).Seconds())
 	if werr != nil {
 		res.Note("generated module: %v", werr)
 		res.NotExhaustive("the generated module could not be loaded (harness error)")
@@ -539,22 +655,18 @@ func TestVerifC08(t *testing.T) {
 			atomic.AddInt64(&st.dupLeft, 1)
 			noteUnassert("code.Matches yields the same (node, bindings) more than once (results are compared as sets)", p.Text+" on "+k.Name)
 		}
+		if o.listOnly > 0 {
+			atomic.AddInt64(&st.listOnly, 1)
+		}
 		if len(o.extra) > 0 {
 			atomic.AddInt64(&st.extraPairs, 1)
 			noteUnassert("code.Matches yields a result the brute force does not produce (cannot be caused by dropping; not asserted)", p.Text+" on "+k.Name+": "+o.extra[0])
 		}
-		if len(o.missing) > 0 {
+		if len(o.missing) > 0 && p.unassertOnly != "" {
+			noteUnassert(p.unassertOnly, fmt.Sprintf("%s on %s: %s (withheld by %s)", p.Text, k.Name, o.missing[0], c8Stage(p, k.Pass)))
+		} else if len(o.missing) > 0 {
 			stage := c8Stage(p, k.Pass)
-			kinds := map[string]bool{}
-			for _, mk := range o.missKinds {
-				kinds[mk] = true
-			}
-			var ks []string
-			for mk := range kinds {
-				ks = append(ks, mk)
-			}
-			sort.Strings(ks)
-			col.add(&c8Drop{sig: stage + "/" + c8RootKind(p.Pat.Root) + "/" + strings.Join(ks, "+"), pat: p, pkg: k.Name, stage: stage, missing: o.missing})
+			col.add(&c8Drop{sig: p.Src[:3] + "/" + stage + "/" + c8RootKind(p.Pat.Root) + "/" + o.missWhat, pat: p, pkg: k.Name, stage: stage, missing: o.missing})
 		} else if o.rightN == 0 {
 			if stage := c8Stage(p, k.Pass); stage == "symbol-index" {
 				atomic.AddInt64(&st.stageReject, 1)
@@ -562,7 +674,9 @@ func TestVerifC08(t *testing.T) {
 		}
 	}
 
-	runStage := func(name string, pats []*c8Pat, pkgs []*c8Pkg) {
+	// runStage: patterns are taken in order (weight order for the generated ones) by a pool of workers;
+	// get(i) parses pattern i (nil: the parser refuses the term, which then is not a pattern).
+	runStage := func(name string, n int, get func(i int) *c8Pat, pkgs []*c8Pkg) {
 		var next int64 = -1
 		var done int64
 		var ww sync.WaitGroup
@@ -572,11 +686,13 @@ func TestVerifC08(t *testing.T) {
 				defer ww.Done()
 				for {
 					i := int(atomic.AddInt64(&next, 1))
-					if i >= len(pats) || res.Expired() {
+					if i >= n || res.Expired() {
 						return
 					}
-					for _, k := range pkgs {
-						doPair(pats[i], k)
+					if p := get(i); p != nil {
+						for _, k := range pkgs {
+							doPair(p, k)
+						}
 					}
 					atomic.AddInt64(&done, 1)
 				}
@@ -584,12 +700,35 @@ func TestVerifC08(t *testing.T) {
 		}
 		ww.Wait()
 		res.Count("patterns_completed_"+name, done)
-		if int(done) < len(pats) {
-			res.NotExhaustive(fmt.Sprintf("budget reached in stage %s: %d of %d patterns (enumerated in order of weight)", name, done, len(pats)))
+		if int(done) < n {
+			res.NotExhaustive(fmt.Sprintf("budget reached in stage %s: %d of %d patterns (enumerated in order of weight)", name, done, n))
 		}
 	}
-	runStage("harvested", hpats, allPkgs)
-	runStage("generated", gpats, world)
+	runStage("harvested", len(hpats), func(i int) *c8Pat { return hpats[i] }, allPkgs)
+	t.Logf("harvested stage done at %.1fs", time.Since(t0).Seconds())
+	runStage("generated", len(gpats), func(i int) *c8Pat {
+		p, err := c8NewPat(gpats[i], "gen")
+		if err != nil {
+			if atomic.AddInt64(&rejected, 1) <= 3 {
+				res.Note("generated term refused by the parser (not a pattern, skipped): %s: %v", gpats[i], err)
+			}
+			return nil
+		}
+		return p
+	}, world)
+	res.Count("patterns_generated_refused_by_parser", rejected)
+	// Outside the quantifier (the property lists func, methods, interface method, type name, var/const,
+	// generic func): the method of an instantiated generic type, which Symbol names by its instantiated
+	// receiver. Enumerated, reported as unasserted.
+	var xpats []*c8Pat
+	for _, s := range []string{`(Symbol "(*c08/lib.Box[int]).Get")`, `(CallExpr (Symbol "(*c08/lib.Box[int]).Get") _)`, `(AssignStmt _ _ (CallExpr (Symbol "(*c08/lib.Box[int]).Get") _))`} {
+		if p, err := c8NewPat(s, "gen"); err == nil {
+			p.unassertOnly = "symbol naming a method of an instantiated generic type (matched by Symbol under the instantiated receiver's name; the symbol index looks up the literal type name): matches dropped"
+			xpats = append(xpats, p)
+		}
+	}
+	runStage("extra_unasserted", len(xpats), func(i int) *c8Pat { return xpats[i] }, world)
+	t.Logf("generated stage done at %.1fs", time.Since(t0).Seconds())
 
 	// ---- report
 	res.States = st.pairs
@@ -606,6 +745,10 @@ func TestVerifC08(t *testing.T) {
 	res.Count("panics_on_node_kinds_never_offered_counted_as_no_match", st.otherPanics)
 	res.Count("pairs_with_duplicate_results", st.dupLeft)
 	res.Count("pairs_with_extra_results", st.extraPairs)
+	res.Count("pairs_with_unasserted_BlockStmt_FieldList_matches", st.listOnly)
+	if st.listOnly > 0 {
+		res.Unassert(fmt.Sprintf("brute-force matches on BlockStmt/FieldList nodes for patterns whose root is not a List (the only element's match seen through the list, or a catch-all root on a node kind the language cannot name) are not yielded by code.Matches: %d pairs; not asserted", st.listOnly))
+	}
 	var kinds []string
 	for k := range unasserted {
 		kinds = append(kinds, k)
